@@ -857,7 +857,7 @@ class Process(StateMachine, persistence.Savable, metaclass=ProcessStateMachineMe
     def on_playing(self) -> None:
         """The process was played."""
         # Done being paused
-        if self._paused is not None:
+        if self._paused is not None and not self._paused.done():
             self._paused.set_result(True)
         self._paused = None
 
@@ -928,6 +928,9 @@ class Process(StateMachine, persistence.Savable, metaclass=ProcessStateMachineMe
     def on_terminated(self) -> None:
         """Call when a terminal state is reached."""
         super().on_terminated()
+        if self._paused is not None and not self._paused.done():
+            # Nobody is going to play a terminated process: release the stepping coroutine that is waiting for it
+            self._paused.set_result(True)
         self.close()
 
     @super_check
@@ -1332,6 +1335,9 @@ class Process(StateMachine, persistence.Savable, metaclass=ProcessStateMachineMe
 
         if self.paused and self._paused is not None:
             await self._paused
+            if self.has_terminated():
+                # Killed (or failed) while paused, there is nothing left to step
+                return
 
         try:
             self._stepping = True
